@@ -1,6 +1,7 @@
 import Norad.Lemmas.C12
 import Norad.Lemmas.GlifTables
 import Norad.Lemmas.JudgeLink
+import Norad.Lemmas.JudgeDoc
 import Norad.Generated.GlifParser
 import Norad.Lemmas.C02
 import Norad.Lemmas.GlifGen
@@ -614,9 +615,10 @@ theorem attr_order_irrelevant (s : PS) {l₁ l₂ : List Attr} (hp : l₁.Perm l
 --   advance_/unicode_clean_accepted` show that the model's attribute loop then succeeds for ANY attribute order (under
 --   `ReadsNumerals rd`: Rust reads every plain decimal numeral; identifier not seen before), and `clean_element_step` packages
 --   them: a judge-clean self-closing element is accepted in any parser state at its level.
--- OPEN: the document level of that link — a fold over `Spec.Doc` items with the global clauses of `Spec.judge` (once-only counts,
---   `hasDup (docIdents d)`, `contourCheck`'s `legalB` against the parsed points, the `glyph` start tag, object libs) so that
---   `Spec.judge rd d = ([], false)` alone gives `parseGlif rd (Spec.flatten d) = .ok _`;
+-- Document level (`Lemmas/JudgeDoc.lean`, audited): **`judge_clean_accepted`** — `Spec.judge rd d = ([], false)` and the shape the
+--   tokeniser delivers (`Shaped d`: attribute names pairwise different, prolog of declaration/comments, no `</lib>`/error inside a lib,
+--   readable note text, and the three spellings the recorded findings exclude) give `∃ g, parseGlif rd (Spec.flatten d) = .ok g`, for
+--   format 1 and format 2, under `ReadsNumerals rd`.  No lib hypothesis is needed: `judge`'s `objectLibsCheck` gives it.
 --   and format 1.  Earlier note, kept:
 -- (was OPEN) legal_accepted for the whole grammar `Spec.flatten d` (any element order, comments anywhere, both versions).
 --   Kernel-checked instead (second phase, `Lemmas/C02.lean`, listed in the audit): acceptance element family by element
@@ -1197,5 +1199,74 @@ example :
     (s := { g := { name := ['a'] }, ver := 2 })
     (e := { name := sAnchor, attrs := some [(['y'], ['2']), ("name".toList, ['t']), (['x'], ['1'])] })
     (by decide +kernel) (by intro as v _ _ h; cases h)).2.2.1 rfl rfl
+
+/-! ### a `judge`-clean document is accepted: non-vacuity -/
+
+def jd0 : Spec.Doc :=
+  { prolog := [.decl, .comment],
+    gattrs := some [("format".toList, ['2']), ("name".toList, ['a'])],
+    items := [.comment,
+      .elem { name := sAnchor, attrs := some [(['y'], ['2']), (sIdentifier, ['i']), (['x'], ['1'])] },
+      .outline (some []) false [.comment,
+        .contour (some [(sIdentifier, ['c'])]) false
+          [.elem { name := sPoint, attrs := some [(['x'], ['0']), ("type".toList, "line".toList), (['y'], ['0'])] }, .comment],
+        .contour (some []) true [],
+        .elem { name := sComponent, attrs := some [("base".toList, ['b'])] }],
+      .elem { name := sAdvance, attrs := some [("width".toList, "500".toList)] },
+      .lib (some []) (.dict [(['k'], .atom "b1")]) [.other],
+      .note (some []) [.text (some ['n']), .comment]] }
+
+def jd1 : Spec.Doc :=
+  { prolog := [], gattrs := some [("name".toList, ['a']), ("format".toList, ['1'])],
+    items := [.outline (some []) false
+      [.contour (some []) false
+        [.elem { name := sPoint, attrs := some [(['x'], ['0']), ("type".toList, "move".toList), (['y'], ['0']), ("name".toList, ['t'])] }]]] }
+
+theorem jd0_clean : Spec.judge (fun _ => some 0) jd0 = ([], false) := by decide +kernel
+theorem jd1_clean : Spec.judge (fun _ => some 0) jd1 = ([], false) := by decide +kernel
+
+theorem jd0_shaped : Shaped jd0 := by
+  refine ⟨by decide, by intro as h; cases h; decide, rfl, ?_⟩
+  intro it hit
+  simp only [jd0, List.mem_cons, List.not_mem_nil, or_false] at hit
+  rcases hit with rfl | rfl | rfl | rfl | rfl | rfl
+  · trivial
+  · exact ⟨by intro as h; cases h; decide, by decide⟩
+  · intro k hk
+    simp only [List.mem_cons, List.not_mem_nil, or_false] at hk
+    rcases hk with rfl | rfl | rfl | rfl
+    · trivial
+    · refine ⟨by intro as h; cases h; decide, ?_⟩
+      intro c hc
+      simp only [List.mem_cons, List.not_mem_nil, or_false] at hc
+      rcases hc with rfl | rfl
+      · exact ⟨by intro as h; cases h; decide, rfl⟩
+      · trivial
+    · exact ⟨(by intro as h; cases h; decide), (by intro c hc; cases hc)⟩
+    · exact ⟨by intro as h; cases h; decide, rfl⟩
+  · exact ⟨by intro as h; cases h; decide, by decide⟩
+  · intro e he; simp at he; subst he; rfl
+  · intro k hk
+    simp only [List.mem_cons, List.not_mem_nil, or_false] at hk
+    rcases hk with rfl | rfl <;> trivial
+
+example : ∃ g, parseGlif (fun _ => some 0) (Spec.flatten jd0) = .ok g :=
+  judge_clean_accepted (fun _ _ => ⟨0, rfl⟩) jd0_clean jd0_shaped
+
+-- format 1 (the single named `move` point becomes an anchor)
+example : ∃ g, parseGlif (fun _ => some 0) (Spec.flatten jd1) = .ok g :=
+  judge_clean_accepted (fun _ _ => ⟨0, rfl⟩) jd1_clean
+    ⟨by intro e he; cases he, by intro as h; cases h; decide, rfl, by
+      intro it hit
+      simp only [jd1, List.mem_cons, List.not_mem_nil, or_false] at hit
+      subst hit
+      intro k hk
+      simp only [List.mem_cons, List.not_mem_nil, or_false] at hk
+      subst hk
+      refine ⟨by intro as h; cases h; decide, ?_⟩
+      intro c hc
+      simp only [List.mem_cons, List.not_mem_nil, or_false] at hc
+      subst hc
+      exact ⟨by intro as h; cases h; decide, rfl⟩⟩
 
 end Glif
